@@ -60,6 +60,8 @@ type Frame struct {
 	summarise  bool                // inner loops become deterministic summaries of their live-in values
 	edgeOver   map[[2]int]string   // edge conditions fixed by a loop summary
 	summarised map[int]bool
+	cloAlts    map[ssa.Value][]cloAlt // function-typed phis whose incoming values are closures or nil
+	closureOverride *ssa.MakeClosure
 }
 
 type deferred struct {
@@ -376,6 +378,22 @@ func (f *Frame) definePhi(phi *ssa.Phi, b *ssa.BasicBlock, preds []*ssa.BasicBlo
 	if len(vs) == 0 {
 		f.vals[phi] = Val{T: u.fresh("phi", u.D.SortOf(phi.Type())), Typ: phi.Type()}
 		return
+	}
+	if _, isFn := phi.Type().Underlying().(*types.Signature); isFn {
+		allClo := true
+		var alts []cloAlt
+		for i, v := range vs {
+			if v.Clo == nil && v.T != "0" {
+				allClo = false
+			}
+			alts = append(alts, cloAlt{cond: conds[i], val: v})
+		}
+		if allClo {
+			if f.cloAlts == nil {
+				f.cloAlts = map[ssa.Value][]cloAlt{}
+			}
+			f.cloAlts[phi] = alts
+		}
 	}
 	for _, v := range vs {
 		if v.Loc != nil {
@@ -820,6 +838,11 @@ func (f *Frame) unop(x *ssa.UnOp, st *state) {
 		}
 		f.vals[x] = v
 		u.wellFormedLoaded(st.heap, v.T, x.Type())
+		if sg, ok := x.X.(*ssa.Global); ok {
+			if gv, ok := sg.Object().(*types.Var); ok && f.fn.Name() != "init" && u.globalNonNil(gv) {
+				u.emit("(assert " + nonNilTerm(v.T, x.Type()) + ")")
+			}
+		}
 		// attribute lists of a parsed pkix.Name are nil or non-empty
 		if n := len(l.Path); n > 0 && l.Path[n-1].Field >= 0 && types.TypeString(l.Path[n-1].T, nil) == "github.com/zmap/zcrypto/x509/pkix.Name" {
 			if _, isSlice := x.Type().Underlying().(*types.Slice); isSlice {
